@@ -225,6 +225,8 @@ pub fn sample_power(log: &[LogOp], r: &mut Rng, max: usize, all_cuts: bool) -> V
 }
 
 pub struct Eval<'a> {
+    /// durability mode (C03): frames beyond the acknowledged table are tolerated
+    pub lenient: bool,
     pub root: &'a str,
     pub counter: usize,
     pub stats: CrashStats,
@@ -272,7 +274,21 @@ pub fn observe(mem: &mut Memvid) -> Vec<String> {
 
 impl<'a> Eval<'a> {
     pub fn new(root: &'a str) -> Self {
-        Eval { root, counter: 0, stats: CrashStats::default() }
+        Eval { lenient: false, root, counter: 0, stats: CrashStats::default() }
+    }
+
+    /// In-place rewrite paths whose every failure mode is one finding (identified by call site).
+    fn sig_for(&self, ctx: &str, class: &str) -> String {
+        if ctx.starts_with("open:") {
+            "open:recovery".to_string()
+        } else if ctx.ends_with(":inplace-resize") {
+            ctx.to_string()
+        } else if ctx == "vacuum:after-rename" {
+            // vacuum = commit (staged) followed by an in-place rewrite of the payload region
+            "vacuum:inplace-rewrite".to_string()
+        } else {
+            format!("{ctx}/{class}")
+        }
     }
 
     fn fresh_dir(&mut self) -> String {
@@ -283,7 +299,7 @@ impl<'a> Eval<'a> {
     /// Evaluate one crash point against the candidate expected states.
     /// `cands`: acceptable recovered models; `may_fail_open`: the file may legitimately not open
     /// (crash inside create).
-    pub fn eval(&mut self, seg: &Segment, cp: &CrashPoint, cands: &[Model], may_fail_open: bool, props: &[&str], nested_explore: Option<(&mut Rng, usize)>) -> Vec<(Violation, CrashPoint)> {
+    pub fn eval(&mut self, seg: &Segment, cp: &CrashPoint, cands: &[Model], may_fail_open: bool, props: &[&str], ctx: &str, nested_explore: Option<(&mut Rng, usize)>) -> Vec<(Violation, CrashPoint)> {
         let mut out: Vec<(Violation, CrashPoint)> = Vec::new();
         let img = disk::build(&seg.log, &seg.base, &cp.spec);
         self.stats.images += 1;
@@ -358,8 +374,9 @@ impl<'a> Eval<'a> {
                 self.stats.opens_failed_allowed += 1;
             } else {
                 let e = o.err.unwrap_or_default();
-                let sig = sig_of(&e);
-                out.push((mk("open-after-crash", &sig, format!("open failed after {:?} nested {:?}: {e}", cp.spec, nested_done)), cp.clone()));
+                let reason: String = e.rsplit(": ").next().unwrap_or("").chars().filter(|c| !c.is_ascii_digit()).take(48).collect::<String>().trim().replace(' ', "-");
+                let sig = self.sig_for(ctx, &format!("open-fails:{reason}"));
+                out.push((mk("crash-state", &sig, format!("[{ctx}] open failed after {:?} nested {:?}: {e}", cp.spec, nested_done)), cp.clone()));
             }
             let _ = std::fs::remove_dir_all(&dir);
             return out;
@@ -375,7 +392,7 @@ impl<'a> Eval<'a> {
                 best = Some(Vec::new());
                 break;
             }
-            let (mis, _n) = oracle::diff_model(&mut mem, c, false, "crash-recovery");
+            let (mis, _n) = oracle::diff_model_ext(&mut mem, c, false, "crash-recovery", self.lenient);
             if mis.is_empty() {
                 best = Some(mis);
                 break;
@@ -388,12 +405,14 @@ impl<'a> Eval<'a> {
             if !mis.is_empty() {
                 let n_real = mem.frame_count();
                 let sizes: Vec<usize> = cands.iter().map(|c| c.frames.len()).collect();
-                let sig = if cands.len() == 2 && n_real > sizes[0] && n_real < sizes[1] { "partial-inflight-op" } else if n_real < sizes[0] { "acked-frames-missing" } else { mis[0].oracle };
+                let class = if cands.len() == 2 && n_real > sizes[0] && n_real < sizes[1] { "partial-inflight-op" } else if n_real < sizes[0] { "acked-frames-missing" } else { mis[0].oracle };
+                let sig = self.sig_for(ctx, class);
+                let sig = sig.as_str();
                 out.push((
                     mk(
-                        "state-after-crash",
+                        "crash-state",
                         sig,
-                        format!("after {:?} nested {:?}: reopened memory ({} frames) matches none of the {} allowed states (sizes {:?}); closest differs by: {}", cp.spec, nested_done, n_real, cands.len(), sizes, mis.iter().take(3).map(|m| m.msg.clone()).collect::<Vec<_>>().join(" | ")),
+                        format!("[{ctx}] after {:?} nested {:?}: reopened memory ({} frames) matches none of the {} allowed states (sizes {:?}); closest differs by: {}", cp.spec, nested_done, n_real, cands.len(), sizes, mis.iter().take(3).map(|m| m.msg.clone()).collect::<Vec<_>>().join(" | ")),
                     ),
                     cp.clone(),
                 ));
@@ -457,7 +476,7 @@ impl<'a> Eval<'a> {
                     let mut cpn = cp.clone();
                     cpn.nested = chain.clone();
                     if let Some(f) = fail {
-                        let sig = sig_of(&f);
+                        let sig = String::new();
                         out.push((Violation { props: vec!["C04".into()], oracle: "recovery-crash-safe".into(), sig, msg: format!("crash inside recovery {:?} then {:?}: {f}", cp.spec, chain), op: 0 }, cpn.clone()));
                     } else if let Some(fo) = fin_obs {
                         if fo != obs {
@@ -466,7 +485,7 @@ impl<'a> Eval<'a> {
                                 Violation {
                                     props: vec!["C04".into()],
                                     oracle: "recovery-crash-safe".into(),
-                                    sig: "state-differs".into(),
+                                    sig: String::new(),
                                     msg: format!("crash inside recovery {:?} then {:?}: final state differs from uninterrupted recovery at frame {diff}: {:?} vs {:?} ({} vs {} frames)", cp.spec, chain, fo.get(diff), obs.get(diff), fo.len(), obs.len()),
                                     op: 0,
                                 },
@@ -500,6 +519,53 @@ impl<'a> Eval<'a> {
         let _ = std::fs::remove_dir_all(&dir);
         out
     }
+}
+
+/// Which call site / phase a cut falls into (part of the violation signature).
+pub fn phase(log: &[LogOp], cut: usize, ops: &[Op]) -> String {
+    let cut = cut.min(log.len());
+    let mut begin = None;
+    for (i, op) in log[..cut].iter().enumerate() {
+        match op.kind {
+            Kind::Begin => begin = Some((i, op.off as usize)),
+            Kind::End => begin = None,
+            _ => {}
+        }
+    }
+    let Some((b, api)) = begin else { return "between-ops".to_string() };
+    let kind = ops.get(api).map(|o| o.kind_name()).unwrap_or("?");
+    let mut created: Vec<u32> = Vec::new();
+    let mut inplace_resize = false;
+    let mut staging_open = false;
+    let mut renamed = false;
+    for op in &log[b..cut] {
+        match op.kind {
+            Kind::Create => {
+                created.push(op.ino);
+                staging_open = true;
+            }
+            Kind::Rename => {
+                staging_open = false;
+                renamed = true;
+            }
+            Kind::Trunc => {
+                if !created.contains(&op.ino) && op.name != "fallocate" {
+                    inplace_resize = true;
+                }
+            }
+            _ => {}
+        }
+    }
+    let ph = if inplace_resize && !renamed && !staging_open {
+        "inplace-resize"
+    } else if staging_open {
+        "staging"
+    } else if renamed {
+        "after-rename"
+    } else {
+        "plain"
+    };
+    format!("{kind}:{ph}")
 }
 
 /// Allowed recovered states at a cut of segment `seg`.
